@@ -228,6 +228,16 @@ def build_router(case: dict, trace: Trace, loop: vclock.VLoop, fn_tag: str = "",
             e.end = "depfail"
             trace.execs.append(e)
             raise EXC[o.get("exc", "RuntimeError")](o.get("text", "provider failed"))
+        if o.get("k") == "depeager":
+            # a guard dependency that settles the message itself: an eager response before the actor body is entered
+            counters[id_] = n + 1
+            e = Exec(id_, n, "provider", m.parameters.retries.already_tried, loop.time(), loop.steps, fn_tag=fn_tag)
+            e.outcome = o
+            e.t1 = loop.time()
+            e.end = "dep-eager"
+            trace.execs.append(e)
+            await getattr(m, o["action"])()
+            e.after_eager_marker = True
         return "dep-value"
 
     def make(spec: dict) -> None:
